@@ -368,7 +368,7 @@ Fixpoint rj_flush (n : nat) (s : st) : st :=
 
 (* the loop over the selected journals; ofd = the journal replayed before this one.  Result: state, whether
    recovery can go on, the last journal replayed *)
-Fixpoint rj_loop (sel fl : list N) (ofd : option N) (bad : list fd) (s : st) : st * bool * option N :=
+Fixpoint rj_loop (sel fl : list N) (ofd : option N) (mbad : bool) (bad : list fd) (s : st) : st * bool * option N :=
   match sel with
   | [] => (s, true, ofd)
   | j :: sel' =>
@@ -377,10 +377,10 @@ Fixpoint rj_loop (sel fl : list N) (ofd : option N) (bad : list fd) (s : st) : s
         | None => (s, true)
         | Some o =>
             let '(s', _) := commit (Some KFlush) [] (Some j) false COk
-                              (negb (fmem bad (FManifest, match man s with Some m => m | None => 0 end))) s in
+                              (negb mbad) s in
             do_rm (FJournal, o) (negb (fmem bad (FJournal, o))) RFailed s'
         end in
-      if ok then rj_loop sel' (tl fl) (Some j) bad (rj_flush (N.to_nat (hd 0 fl)) s1)
+      if ok then rj_loop sel' (tl fl) (Some j) mbad bad (rj_flush (N.to_nat (hd 0 fl)) s1)
       else (s1, false, ofd)
   end.
 
@@ -405,8 +405,9 @@ Definition is_live (s : st) (f : fd) : bool :=
   end.
 
 (* Open on the listing [files s] when session.recover computes v; fl: tables flushed per replayed journal;
-   bad: Remove calls that fail.  [opened] of the result says whether Open succeeded. *)
-Definition open_db (v : view) (fl : list N) (bad : list fd) (s : st) : st :=
+   mbad: the Remove of the old manifest by the session's first commit fails (its error is only logged; the
+   janitor tries again); bad: other Remove calls that fail.  [opened] of the result says whether Open succeeded. *)
+Definition open_db (v : view) (fl : list N) (mbad : bool) (bad : list fd) (s : st) : st :=
   let s0 :=
     set_tb (map (fun t => (t, CTab)) (ndedup (v_tabs v)))
       (set_next (v_next v) (set_sjnum (v_jnum v) (set_man (Some (v_man v)) (set_hasman false (set_mfailed false
@@ -414,13 +415,13 @@ Definition open_db (v : view) (fl : list N) (bad : list fd) (s : st) : st :=
       (set_frozen None (set_fdone false (set_fempty false (set_residue [] s))))))))))))))) in
   let sel := rj_select (v_jnum v) (pjn v) (files s) in
   let s1 := match sel with [] => s0 | _ => mark_num (last sel 0) s0 end in
-  let '(s2, ok, ofd) := rj_loop sel fl None bad s1 in
+  let '(s2, ok, ofd) := rj_loop sel fl None mbad bad s1 in
   if negb ok then s2 else
   (* newMem(0) *)
   let j := next s2 in
   let s3 := set_journal j (set_files (fadd (files s2) (FJournal, j)) (set_next (j + 1) s2)) in
   let '(s4, _) := commit (Some KFlush) [] (Some j) false COk
-                    (negb (fmem bad (FManifest, match man s3 with Some m => m | None => 0 end))) s3 in
+                    (negb mbad) s3 in
   let '(s5, ok5) := match ofd with
                     | Some o => do_rm (FJournal, o) (negb (fmem bad (FJournal, o))) RFailed s4
                     | None => (s4, true)
@@ -454,7 +455,7 @@ Inductive op :=
 | ODiscard (o : cout) (rmok : bool) (bad : list fd)
 | OLoopRemove (t : N) (ok : bool)   (* the reference loop calls tOps.remove(t) *)
 | OClose
-| OOpen (vi : nat) (fl : list N) (bad : list fd).
+| OOpen (vi : nat) (fl : list N) (mbad : bool) (bad : list fd).
 
 Fixpoint remove_nth {A} (i : nat) (l : list A) : list A :=
   match i, l with
@@ -608,9 +609,9 @@ Definition step (s : st) (o : op) : option st :=
          && match pins s with [] => true | _ => false end
          && match held s with [] => true | _ => false end
       then Some (set_opened false (set_tb [] (set_residue [] (set_hasman false s)))) else None
-  | OOpen vi fl bad =>
+  | OOpen vi fl mbad bad =>
       if negb (opened s) && Nat.ltb vi (length (views s))
-      then Some (open_db (nth vi (views s) dflt_view) fl bad s) else None
+      then Some (open_db (nth vi (views s) dflt_view) fl mbad bad s) else None
   end.
 
 Fixpoint run (s : st) (ops : list op) : option st :=
